@@ -240,7 +240,7 @@ def judgeJSON (endStream : Bool) (kind : String) (impl : Json) : Verdict :=
   let own := if kind == "own" then ownImage endStream dbg doc else (true, "")
   let holds := specHolds && genHolds.1
   { agree := mCls == sortStrings fb && !oracleMissing && own.1, holds := holds,
-    nontrivial := kind != "random" || !wellFormed || true, model := toJson mCls,
+    nontrivial := true, model := toJson mCls,
     why := if holds then (if own.1 then (if oracleMissing then "debug oracle has no entry for a comparison the model reaches" else "") else "own document: " ++ own.2)
       else if !genHolds.1 then genHolds.2
       else s!"well-formed={wellFormed}, must flag {reprStr (if endStream then mustFlagEndStream doc else mustFlagError doc)}, feedback {fb}",
